@@ -176,6 +176,7 @@ class Trace:
         self.datagrams = []     # dicts for every X event
         self.steps = 0
         self.obs0 = {}          # resource -> initial observe value (coap_persist_set_observe_num)
+        self.anomalies = []     # wire details the model fixes but its outputs do not carry
 
 
 def translate(case_line, trace_line):
@@ -294,6 +295,8 @@ def translate(case_line, trace_line):
                     s = "N%d:%s:%d:%s:%s:%s" % (nord, d["res"], d["c"], d["tok"], d["obs"], con)
                 else:
                     s = "E%d:%s:%d:%s:%s" % (nord, d["res"], d["c"], d["tok"], con)
+                    if cls == 2 or d["obs"] != "-":
+                        t.anomalies.append("odd-notification-%d-%s" % (d["code"], d["obs"]))
                 nord += 1
                 if cur is None or not in_step:
                     t.ok = False
@@ -303,6 +306,8 @@ def translate(case_line, trace_line):
             elif d["origin"] == "g":
                 if cur is not None and cur[0].startswith("D:"):
                     cur[1].append("G%d:%d:%s" % (pending_del, d["c"], d["tok"]))
+                    if d["type"] != "N" or d["code"] != 132 or d["obs"] != "-":
+                        t.anomalies.append("gone-notice-%s-%d-%s" % (d["type"], d["code"], d["obs"]))
                 else:
                     t.ok = False
                     t.why = "4.04 outside a resource deletion: " + tk
@@ -397,7 +402,7 @@ def strip_internal(s):
 def impl_canonical(t):
     """what the model driver would print if the model behaved like the implementation did"""
     groups = [" ".join(["["] + g[1]) for g in t.groups]
-    return " ".join(groups) + " | " + t.dump
+    return " ".join(groups) + " | " + t.dump + ("".join(" " + a for a in t.anomalies))
 
 
 def acceptor_line(t, strict):
